@@ -5,6 +5,7 @@
  */
 #include "cifio.h"
 #include "loop.c"
+#include "parser.c"
 
 /* build a value of the requested shape (un-armed); returns NULL on malformed input */
 static cif_value_tp *mk(char **argv, int argc, int *pos) {
@@ -52,6 +53,13 @@ static cif_value_tp *mk(char **argv, int argc, int *pos) {
     }
     return NULL;
 }
+
+/* a scanner over a complete in-memory text, initialised as cif_parse() / cif_parse_internal() do (see x_lex.c) */
+static ssize_t ld_read_none(void *src, UChar *dest, ssize_t count, int *error_code) { (void) src; (void) dest; (void) count; (void) error_code; return 0; }
+static int ld_refuse(int code, size_t line, size_t column, const UChar *text, size_t length, void *data) {
+    (void) line; (void) column; (void) text; (void) length; (void) data; return code;
+}
+static cif_handler_tp ld_no_handler;
 
 static int cmp_long(const void *a, const void *b) { long x = *(const long *) a, y = *(const long *) b; return (x > y) - (x < y); }
 
@@ -283,6 +291,36 @@ static void handle(int argc, char **argv) {
         } else if (rc == CIF_OK) OUT(" !NOPACKET");
         for (i = 0; i < n; i++) free(names[i]);
         free(names);
+    } else if (argc == 4 && !strcmp(argv[1], "loophdr")) {
+        /* parse_loop() of parser.c, syntax-only (container == NULL), on the text " _a0 … _a<n-1> _a0": n distinct names and a
+           repetition of the first, which the error callback refuses — so parse_loop_header returns an error on every path
+           and parse_loop releases the name list.  The scanner's buffer holds the whole text (no request by the scanner). */
+        int n = atoi(argv[2]), i;
+        struct scanner_s scanner;
+        char text[2048]; size_t len = 0, j;
+        if (n < 1 || n > 100) { OUT("bad-op"); return; }
+        for (i = 0; i <= n; i++) len += (size_t) snprintf(text + len, sizeof(text) - len, " _a%d", i == n ? 0 : i);
+        len += (size_t) snprintf(text + len, sizeof(text) - len, "\n");
+        memset(&scanner, 0, sizeof(scanner));
+        scanner.read_func = ld_read_none;
+        scanner.at_eof = CIF_TRUE;
+        scanner.cif_version = 2;
+        scanner.max_frame_depth = 1;
+        scanner.handler = &ld_no_handler;
+        scanner.error_callback = ld_refuse;
+        scanner.buffer_size = len + BUF_MIN_FILL + 1;
+        scanner.buffer = (UChar *) malloc(scanner.buffer_size * sizeof(UChar));
+        for (j = 0; j < len; j++) scanner.buffer[j] = (UChar) text[j];
+        scanner.buffer_limit = len;
+        INIT_V2_SCANNER(&scanner, NULL, NULL);
+        scanner.next_char = scanner.buffer;
+        scanner.text_start = scanner.buffer;
+        scanner.tvalue_start = scanner.buffer;
+        scanner.tvalue_length = 0;
+        verif_arm(0, atol(argv[3]));
+        ARM(); rc = parse_loop(&scanner, NULL); DISARM();
+        summary(rc);
+        free(scanner.buffer);
     } else if (argc >= 5 && (!strcmp(argv[1], "getpackets") || !strcmp(argv[1], "nextpacket"))) {
         /* ladder getpackets <n> <name-hex>*n <k>                         cif_loop_get_packets
            ladder nextpacket <keep> <n> (<name-hex> <vshape…>)*n <k>      cif_pktitr_next_packet (packet == NULL / *packet == NULL)
